@@ -83,6 +83,17 @@ def run(tier, seed, report):
             d0, w0 = rng.choice([1, 2, 3, 4, 5]), rng.choice([1, 2, 3, 4])
             a0, n0 = rng.choice(ALGS), rng.choice([NS1, NS2])
             scenario = rng.choices(["reopen", "fresh", "dirs-no-yaml", "empty-dir"], [7, 2, 1.5, 1])[0]
+            if rng.random() < 0.2:
+                # the path had another life: a store with another configuration was created, reopened and removed
+                # here, in this process — nothing of it may leak into the decision on the store created next
+                dp, wp = rng.choice([x for x in [1, 2, 3, 4, 5] if x != d0]), rng.choice([1, 2, 3, 4])
+                ap, np_ = rng.choice([a for a in ALGS if a != a0]), (NS2 if n0 == NS1 else NS1)
+                prev = {"store_path": root, "store_depth": dp, "store_width": wp, "store_algorithm": ap,
+                        "store_metadata_namespace": np_}
+                FileHashStore(properties=dict(prev))
+                FileHashStore(properties=dict(prev))
+                shutil.rmtree(root)
+                stats["kinds"]["path-reused"] = stats["kinds"].get("path-reused", 0) + 1
             populated = False
             pid, data = "pid-%d" % i, b"payload %d" % i
             if scenario in ("reopen", "dirs-no-yaml"):
